@@ -13,9 +13,9 @@ from pyabv.impl import impl
 from pyabv.props.common import ref_parse
 
 RULE = (
-    "cases = operation histories over 1..4 evaluator slots; ops = new(text), recompile(text), probe; alphabet = 9 valid "
+    "cases = operation histories over 1..4 evaluator slots; ops = new(text), recompile(text), probe; alphabet = 15 valid "
     "texts (same name / other weights, other labels, other name, same tokens with other trivia, other field set, "
-    "single group, salt), 10 invalid texts (illegal character, missing brace, trailing junk, two definitions, empty, "
+    "single group, salt, twins differing only in whitespace / case inside a string literal or after a // comment), 14 invalid texts (illegal character, missing brace, trailing junk, two definitions, empty, "
     "unterminated string, keyword typo, deleted token, unterminated comment, whitespace) and 2 grammatical texts "
     "that fail after parsing (known finding C07/py-reserved-identifier); exhaustive over all histories of length "
     "<= 3 (quick) / 4 (thorough) over a 4-text alphabet x {new, recompile} plus biased random histories. After every "
@@ -40,6 +40,13 @@ VALID = {
                 '{ return "big" weighted 1 } }',
     "D_single": 'def exp { return "only" weighted 1 }',
     "E_salt": 'def exp { salt: "s1" splitters: uid return "a" weighted 1, "b" weighted 1 }',
+    # twins that collide under a "normalising" checksum (whitespace collapsed, case folded) but mean different things
+    "G_space1": 'def exp { splitters: uid return "grp A" weighted 1, "grp B" weighted 1 }',
+    "G_space2": 'def exp { splitters: uid return "grp  A" weighted 1, "grp B" weighted 1 }',
+    "G_case": 'def exp { splitters: uid return "GRP A" weighted 1, "grp B" weighted 1 }',
+    "H_comment": 'def exp { splitters: uid // note\n return "a" weighted 1, "b" weighted 1 }',
+    "I_salt1": 'def exp { salt: "s 1" splitters: uid return "a" weighted 1, "b" weighted 1 }',
+    "I_salt2": 'def exp { salt: "s  1" splitters: uid return "a" weighted 1, "b" weighted 1 }',
     "F_shared": 'def exp { splitters: uid, plan if plan in ("pro", "max") { return 1 weighted 1, 2 weighted 1 } else '
                 '{ return 0.5 weighted 1 } }',
 }
@@ -55,6 +62,8 @@ INVALID = {
     "bad_comment": 'def exp { splitters: uid return "a" weighted 1 } /* open',
     "bad_ws": " \n\t ",
     "bad_weight": 'def exp { splitters: uid return "a" weighted .5, "b" weighted 1 }',
+    "bad_comment_joined": 'def exp { splitters: uid // note return "a" weighted 1, "b" weighted 1 }',
+    "bad_string_newline": 'def exp { splitters: uid return "grp\nA" weighted 1, "grp B" weighted 1 }',
     "bad_prefix": 'junk def exp { splitters: uid return "a" weighted 1, "b" weighted 1 }',
 }
 # grammatical, but construction fails after parsing (known finding of C07): the lifecycle model only
@@ -224,8 +233,16 @@ def run(ctx):
             if not ctx.mine(idx):
                 continue
             lc.run_history([("new", 1, "E_salt")] + [("recompile", 0, t) for t in seq], "exhaustive2")
+    # third exhaustive alphabet: checksum-collision twins (length <= 3)
+    alpha3 = ["G_space1", "G_space2", "G_case", "H_comment", "bad_comment_joined", "I_salt1", "I_salt2", "bad_string_newline"]
+    for L in range(1, 4 if not ctx.quick() else 3):
+        for seq in itertools.product(alpha3, repeat=L):
+            idx += 1
+            if not ctx.mine(idx):
+                continue
+            lc.run_history([("new", 1, "A")] + [("recompile", 0, t) for t in seq], "exhaustive3")
     # random histories
-    n = ctx.n(400, 30000)
+    n = ctx.n(1500, 100000)
     hlen = 25 if ctx.quick() else 50
     for i in range(n):
         ops = random_history(rnd, hlen)
